@@ -115,6 +115,7 @@ private:
                 src = &this->internal_pop();
             }
 
+            __TBB_VERIF_POINT(vp_fg_pred_pull, my_owner, 0);
             // Try to get from this sender
 #if __TBB_PREVIEW_FLOW_GRAPH_TRY_PUT_AND_WAIT
             if (metainfo_ptr) {
@@ -126,6 +127,7 @@ private:
             }
 
             if (successful_get == false) {
+                __TBB_VERIF_POINT(vp_fg_pred_pull, my_owner, 1);
                 // Relinquish ownership of the edge
                 register_successor(*src, *my_owner);
             } else {
@@ -192,6 +194,7 @@ private:
                 reserved_src.store(pred, std::memory_order_relaxed);
             }
 
+            __TBB_VERIF_POINT(vp_fg_pred_pull, this->my_owner, 2);
             // Try to get from this sender
 #if __TBB_PREVIEW_FLOW_GRAPH_TRY_PUT_AND_WAIT
             if (metainfo) {
@@ -203,6 +206,7 @@ private:
             }
 
             if (successful_reserve == false) {
+                __TBB_VERIF_POINT(vp_fg_pred_pull, this->my_owner, 3);
                 typename mutex_type::scoped_lock lock(this->my_mutex);
                 // Relinquish ownership of the edge
                 register_successor( *pred, *this->my_owner );
@@ -393,6 +397,7 @@ class broadcast_cache : public successor_cache<T, M> {
                 ++i;
             }
             else {  // failed
+                __TBB_VERIF_POINT(vp_fg_succ_rejected, this->my_owner, 0);
                 if ( (*i)->register_predecessor(*this->my_owner) ) {
                     i = this->my_successors.erase(i);
                 } else {
@@ -433,6 +438,7 @@ public:
                 is_at_least_one_put_successful = true;
             }
             else {  // failed
+                __TBB_VERIF_POINT(vp_fg_succ_rejected, this->my_owner, 2);
                 if ( (*i)->register_predecessor(*this->my_owner) ) {
                     i = this->my_successors.erase(i);
                 } else {
@@ -475,6 +481,7 @@ private:
             if ( new_task ) {
                 return new_task;
             } else {
+               __TBB_VERIF_POINT(vp_fg_succ_rejected, this->my_owner, 1);
                if ( (*i)->register_predecessor(*this->my_owner) ) {
                    i = this->my_successors.erase(i);
                }
